@@ -5,7 +5,8 @@
     Specification: [spec_point p1 p2 th a lam] = centre + rotation about the unit axis [a] by [th*lam] of
     (p1 - centre), the OpenFOAM definition of  arc v1 v2 <angle> (axis). *)
 From Coq Require Import Reals Lra List.
-From CB Require Import Base.Vec3 Model.C08_Arcs Proofs.C08_Theta Proofs.C08_Chord Proofs.C08_ThreePoint.
+From CB Require Import Base.Vec3 Model.C08_Arcs Proofs.C08_Theta Proofs.C08_Chord Proofs.C08_ThreePoint
+  Proofs.C08_Circle Proofs.C08_Length Proofs.C08_Reflex.
 Import ListNotations.
 Open Scope R_scope.
 
@@ -30,9 +31,60 @@ Definition C08_theta_mid_stmt : Prop :=
   forall p1 p2 th a, theta_wf p1 p2 th a ->
     arc_from_theta p1 p2 th a = spec_point p1 p2 th a (/ 2).
 
-(** ** polyline edges (spline, polyLine, sampled curves) are not shorter than the end point distance *)
-Definition C08_chord_bound_polyline_stmt : Prop :=
-  (forall v1 pts v2, dist v1 v2 <= polyline_length (v1 :: pts ++ [v2]))
+(** ** the reported length of an angle/axis arc (arc_length_3point through the written point) is
+    radius * |sector angle|, the radius being that of the specified circle *)
+Definition C08_theta_length_stmt : Prop :=
+  forall p1 p2 th a, theta_wf p1 p2 th a ->
+    arc_length_3point p1 (arc_from_theta p1 p2 th a) p2 = norm (vsub p1 (spec_centre p1 p2 th a)) * Rabs th.
+
+(** ** the code of the snapshot (before fixes/C08-1.diff), [arc_from_theta_v0], does not have this property:
+    for sector angles above pi it returns the middle of the complementary arc *)
+Definition C08_theta_mid_v0_stmt : Prop :=
+  forall p1 p2 th a, theta_wf p1 p2 th a ->
+    arc_from_theta_v0 p1 p2 th a = spec_point p1 p2 th a (/ 2).
+
+(** ** circles in general position: centre [c], radius [rad], orthonormal [u], [v] spanning the plane;
+    [cpt c rad u v t] = c + rad (cos t u + sin t v).
+    Origin arcs (flatness 1, origin = centre, hence equidistant; the specified arc is the minor one, included
+    angle phi < pi): the written point is the point of the circle at half the included angle and the reported
+    length is radius * included angle *)
+Definition C08_origin_stmt : Prop :=
+  forall tol c rad u v phi, 0 <= tol -> onb u v -> 0 < rad -> 0 < phi < PI ->
+    arc_from_origin tol (cpt c rad u v 0) (cpt c rad u v phi) c 1 = cpt c rad u v (phi / 2)
+    /\ arc_length_3point (cpt c rad u v 0) (arc_from_origin tol (cpt c rad u v 0) (cpt c rad u v phi) c 1) (cpt c rad u v phi)
+       = rad * phi.
+
+(** the same, point-wise, for any end points and any origin equidistant from them (not the middle of the chord):
+    the written point is on the circle about the origin, on the bisector of the chord on the chord's side of the
+    origin (the minor arc), equidistant from both end points *)
+Definition C08_origin_pointwise_stmt : Prop :=
+  forall tol c p1 p3, 0 <= tol -> norm2 (vsub p1 c) = norm2 (vsub p3 c) -> vadd (vsub p1 c) (vsub p3 c) <> vzero ->
+    let m := arc_from_origin tol p1 p3 c 1 in
+    norm2 (vsub m c) = norm2 (vsub p1 c)
+    /\ (exists t, 0 < t /\ vsub m c = vscale t (vadd (vsub p1 c) (vsub p3 c)))
+    /\ norm2 (vsub m p1) = norm2 (vsub m p3).
+
+(** ** classic three-point arcs: the length is that of the arc from the first to the last point that passes
+    through the given point, radius * phi, wherever on the arc (at angle psi) the given point lies *)
+Definition C08_three_point_length_stmt : Prop :=
+  forall c rad u v psi phi, onb u v -> 0 < rad -> 0 < psi -> psi < phi -> phi < 2 * PI ->
+    arc_length_3point (cpt c rad u v 0) (cpt c rad u v psi) (cpt c rad u v phi) = rad * phi.
+(** proved part: the given point lies less than half a turn after the first point (always the case for arcs of
+    at most half a circle and for the points written by the angle/axis and origin conversions) *)
+Definition C08_three_point_length_partial_stmt : Prop :=
+  forall c rad u v psi phi, onb u v -> 0 < rad -> 0 < psi -> psi < phi -> phi < 2 * PI -> psi < PI ->
+    arc_length_3point (cpt c rad u v 0) (cpt c rad u v psi) (cpt c rad u v phi) = rad * phi.
+(** what the code computes otherwise: the length of the complementary arc *)
+Definition C08_three_point_late_stmt : Prop :=
+  forall c rad u v psi phi, onb u v -> 0 < rad -> PI <= psi -> psi < phi -> phi < 2 * PI ->
+    arc_length_3point (cpt c rad u v 0) (cpt c rad u v psi) (cpt c rad u v phi) = rad * (2 * PI - phi).
+
+(** ** every edge is at least as long as the distance of its end points: arc edges of all three kinds
+    (ArcEdgeBase.length, any three points, any tolerance), polyline edges (spline, polyLine, sampled curves);
+    line and project edges report that distance itself *)
+Definition C08_chord_bound_stmt : Prop :=
+  (forall tol v1 p3 v2, 0 <= tol -> dist v1 v2 <= arc_edge_length tol v1 p3 v2)
+  /\ (forall v1 pts v2, dist v1 v2 <= polyline_length (v1 :: pts ++ [v2]))
   /\ (forall p l, dist p (last l p) <= polyline_length (p :: l)).
 
 (** ** the centre computed by arc_length_3point is the circumcentre, in the plane of the three points *)
@@ -54,8 +106,52 @@ Qed.
 Theorem C08_theta_mid : C08_theta_mid_stmt.
 Proof. intros p1 p2 th a (Ha & Hd & Hn & Hth). exact (theta_mid_is_spec_half p1 p2 th a Ha Hd Hn Hth). Qed.
 
-Theorem C08_chord_bound_polyline : C08_chord_bound_polyline_stmt.
-Proof. split; [exact spline_edge_chord | intros p l; exact (polyline_chord l p)]. Qed.
+Theorem C08_theta_length : C08_theta_length_stmt.
+Proof. intros p1 p2 th a (Ha & Hd & Hn & Hth). exact (theta_length p1 p2 th a Ha Hd Hn Hth). Qed.
+
+Theorem C08_theta_mid_v0_refuted : ~ C08_theta_mid_v0_stmt.
+Proof.
+  intros H. apply v0_reflex_differs. apply H. unfold theta_wf, w_p1, w_p2, w_a. repeat split.
+  - vec_simpl. ring.
+  - vec_simpl. ring.
+  - intro E. apply (f_equal vx) in E. unfold vzero in E. vec_simpl. lra.
+  - apply four_in_range.
+  - apply four_in_range.
+Qed.
+
+Theorem C08_origin : C08_origin_stmt.
+Proof.
+  intros tol c rad u v phi Ht H Hr Hphi.
+  split; [exact (origin_mid_circle tol c rad u v phi Ht H Hr Hphi) | exact (origin_length_circle tol c rad u v phi Ht H Hr Hphi)].
+Qed.
+
+Theorem C08_origin_pointwise : C08_origin_pointwise_stmt.
+Proof.
+  intros tol c p1 p3 Ht He Hs. rewrite (arc_from_origin_equidistant tol c p1 p3 Ht He).
+  exact (arc_mid_pointwise c p1 p3 He Hs).
+Qed.
+
+Theorem C08_three_point_length_partial : C08_three_point_length_partial_stmt.
+Proof. exact three_point_length_circle. Qed.
+
+Theorem C08_three_point_late : C08_three_point_late_stmt.
+Proof. exact three_point_length_circle_late. Qed.
+
+Example onb_example : onb (1, 0, 0) (0, 1, 0).
+Proof. unfold onb. repeat split; vec_simpl; ring. Qed.
+
+(** the full statement is false of the code: quarter-circle steps, given point at pi, last point at 3 pi / 2 *)
+Theorem C08_three_point_length_refuted : ~ C08_three_point_length_stmt.
+Proof.
+  intros H. pose proof PI_RGT_0 as Hpi.
+  assert (H1 : 0 < PI) by lra. assert (H2 : PI < 3 * PI / 2) by lra. assert (H3 : 3 * PI / 2 < 2 * PI) by lra.
+  pose proof (H (0, 0, 0) 1 (1, 0, 0) (0, 1, 0) PI (3 * PI / 2) onb_example Rlt_0_1 H1 H2 H3) as E.
+  rewrite (three_point_length_circle_late (0, 0, 0) 1 (1, 0, 0) (0, 1, 0) PI (3 * PI / 2) onb_example Rlt_0_1 (Rle_refl PI) H2 H3) in E.
+  lra.
+Qed.
+
+Theorem C08_chord_bound : C08_chord_bound_stmt.
+Proof. split; [exact arc_edge_chord_bound | split; [exact spline_edge_chord | intros p l; exact (polyline_chord l p)]]. Qed.
 
 Theorem C08_three_point_centre : C08_three_point_centre_stmt.
 Proof.
@@ -76,5 +172,12 @@ Qed.
 
 Print Assumptions C08_theta_centre.
 Print Assumptions C08_theta_mid.
-Print Assumptions C08_chord_bound_polyline.
+Print Assumptions C08_theta_length.
+Print Assumptions C08_theta_mid_v0_refuted.
+Print Assumptions C08_origin.
+Print Assumptions C08_origin_pointwise.
+Print Assumptions C08_three_point_length_partial.
+Print Assumptions C08_three_point_late.
+Print Assumptions C08_three_point_length_refuted.
+Print Assumptions C08_chord_bound.
 Print Assumptions C08_three_point_centre.
